@@ -1,6 +1,9 @@
-(* Model of binder.go's typed ValueBinder (integer families; scalar and slice methods, fail-fast
-   chains) and of bind.go's setWithProperType for integer kinds, driven by the tables that go/gen
-   extracts from the current source.  (C08) *)
+(* Model of binder.go's typed ValueBinder (scalar and slice methods, fail-fast chains) and of bind.go's
+   setWithProperType, driven by the tables that go/gen extracts from the current source.  (C08)
+   Families: 0 signed and 1 unsigned integers are parsed by the model itself (Bind/ParseNum.v);
+   2 float, 3 bool, 4 duration are parsed by the standard library - strconv.ParseFloat / ParseBool,
+   time.ParseDuration - which enters the model as the oracle [orc family bitSize text] (floats as their
+   IEEE bit pattern at the destination width, bool as 0/1, duration as nanoseconds). *)
 From Coq Require Import List Bool Ascii String ZArith.
 From Echo Require Import Base.Sx Bind.ParseNum Gen.Src_binder.
 Import ListNotations.
@@ -16,8 +19,12 @@ Fixpoint find_entry (tbl : list (string * Z * Z * Z * Z * bool)) (name : string)
   | t :: r => let '(n, e) := dec_entry t in if String.eqb n name then Some e else find_entry r name
   end.
 
-Definition parse (f b : Z) (s : str) : option Z := if f =? 0 then parse_int b s else parse_uint b s.
-Definition wrap (f w z : Z) : Z := if f =? 0 then wrap_s w z else wrap_u w z.
+Section WithOracle.
+Variable orc : Z -> Z -> str -> option Z.
+
+Definition parse (f b : Z) (s : str) : option Z :=
+  if f =? 0 then parse_int b s else if f =? 1 then parse_uint b s else orc f b s.
+Definition wrap (f w z : Z) : Z := if f =? 0 then wrap_s w z else if f =? 1 then wrap_u w z else z.
 
 (* b.int / b.uint: parse, then the type switch stores through a conversion (no arm: nothing stored) *)
 Definition convert (e : entry) (s : str) (dest : Z) : Z * bool :=
@@ -82,10 +89,13 @@ Fixpoint find_kind (tbl : list (string * Z * Z * Z)) (k : string) : option (Z * 
   | [] => None
   | (n, f, b, w) :: r => if String.eqb n k then Some (f, b, w) else find_kind r k
   end.
+(* the text an empty value is replaced by: "0", "0.0" (setFloatField), "false" (setBoolField) *)
+Definition zero_text (f : Z) : str := if f =? 2 then lit "0.0" else if f =? 3 then lit "false" else lit "0".
 Definition bind_kind (k : string) (v : str) (dest : Z) : option (Z * bool) :=
   match find_kind bind_kinds k with
   | None => None
   | Some (f, b, w) =>
-      let v' := match v with [] => lit "0" | _ => v end in
+      let v' := match v with [] => zero_text f | _ => v end in
       Some (match parse f b v' with None => (dest, true) | Some n => (wrap f w n, false) end)
   end.
+End WithOracle.
